@@ -1,6 +1,683 @@
-//! C15 — not implemented yet.
+//! C15 — Bézier extrema, bounding boxes, closest-point search and length bound the curve.
+//!
+//! The vek functions judged here (`*_inflection(s)`, `min_*`, `max_*`, `*_bounds`, `aabr`, `aabb`,
+//! `binary_search_point(_by_steps)`, `length_by_discretization`) are called on the real types with
+//! `Rat` (exact), `f64` and `f32`; every oracle value is computed on plain arrays (`ora.rs`).
+
+pub mod curves;
+pub mod gen;
+pub mod ora;
+
+use curves::{Cv, P3};
+use num_traits::Zero;
+use ora::*;
+use vek::bezier::repr_c::{CubicBezier2, CubicBezier3, QuadraticBezier2, QuadraticBezier3};
 use vkit::*;
 
+pub const F5: &str = "F5-bezier-aabb-stores-parameters";
+pub const F6: &str = "F6-cubic-linear-derivative-root-unclamped";
+pub const F_LEN: &str = "F10-bezier-length-step-count-u16-overflow";
+pub const F_CANCEL: &str = "F11-cubic-inflections-negligible-leading-coefficient-cancels";
+
+const AXN: [&str; 3] = ["x", "y", "z"];
+
+fn in01<S: Dom>(t: S) -> bool {
+    S::zero() <= t && t <= S::one()
+}
+
+/// Exact signature of F6 on one coordinate of a cubic: recompute a, b, c with the expressions of
+/// `*_inflections`, the derivative is linear by the code's own epsilon test, its root -c/b lies outside
+/// [0,1] and `val` is exactly that root.
+fn f6_signature<S: Dom>(c: &[S], val: S) -> bool {
+    if c.len() != 4 {
+        return false;
+    }
+    let (s, c0, c1, e) = (c[0], c[1], c[2], c[3]);
+    let two = S::one() + S::one();
+    let three = two + S::one();
+    let six = three + three;
+    let a = three * (e - three * c1 + three * c0 - s);
+    let b = six * (c1 - two * c0 + s);
+    let cc = three * (c0 - s);
+    if !(a.abs() <= S::epsilon()) || b.abs() <= S::epsilon() {
+        return false;
+    }
+    let root = -cc / b;
+    !in01(root) && val == root
+}
+
+/// Exact signature of F11 on one coordinate of a cubic (floats only): with a, b, c recomputed by the
+/// expressions of `*_inflections`, the code takes its quadratic-formula branch (|a| > epsilon) although the
+/// leading coefficient is negligible: 4|ac| <= sqrt(epsilon) b^2, so that `-b +- sqrt(b^2-4ac)` cancels at
+/// least half of the significand for one root (the one near -c/b).
+fn cancel_signature<S: Dom>(c: &[S]) -> bool {
+    if S::EXACT || c.len() != 4 {
+        return false;
+    }
+    let (s, c0, c1, e) = (c[0], c[1], c[2], c[3]);
+    let two = S::one() + S::one();
+    let three = two + S::one();
+    let six = three + three;
+    let a = three * (e - three * c1 + three * c0 - s);
+    let b = six * (c1 - two * c0 + s);
+    let cc = three * (c0 - s);
+    let (a, b, cc) = (a.f(), b.f(), cc.f());
+    a.abs() > S::eps() && 4.0 * (a * cc).abs() <= S::eps().sqrt() * b * b
+}
+
+/// What the oracle knows about one coordinate.
+struct AxisTruth<O> {
+    vmin: O,
+    vmax: O,
+    /// tolerance for comparing coordinate values (0 in the exact domain)
+    tol: f64,
+    /// the coordinate carries the F11 signature
+    cancel: bool,
+}
+
+/// Judge `*_inflection(s)`, `min_*`, `max_*`, `*_bounds` on coordinate `ax`.
+/// `known`: roots of the derivative known by construction (exact domain only).
+fn judge_axis<S: Ora, C: Cv<S>>(cx: &mut Cx, cv: C, cp: &[P3<S>], ax: usize, known: Option<&[(S, bool)]>, grid: usize) -> Result<AxisTruth<S::O>, Fail> {
+    let n = cp.len();
+    let cs: Vec<S> = cp.iter().map(|p| p[ax]).collect();
+    let c: Vec<S::O> = cs.iter().map(|x| x.up()).collect();
+    let axn = AXN[ax];
+    let scale = c.iter().fold(1.0f64, |m, x| m.max(x.f().abs()));
+    let tol = 32.0 * S::eps() * scale;
+    let cancel = cancel_signature(&cs);
+    if cancel {
+        cx.label("F11-signature:negligible-leading-coefficient");
+    }
+    // a failed predicate on a coordinate with the F11 signature is that finding (tolerated iff listed)
+    macro_rules! axis_fail {
+        ($skip:stmt; $($arg:tt)*) => {{
+            if cancel {
+                cx.label("F11-signature:predicate-failed");
+                if cx.known(F_CANCEL) {
+                    $skip
+                }
+                fail!("{} [coordinate has a negligible leading derivative coefficient: the quadratic formula cancels]", format!($($arg)*));
+            }
+            fail!($($arg)*);
+        }};
+    }
+    // ---- oracle sample parameters: end points, grid, critical points
+    let mut ts: Vec<S::O> = Vec::with_capacity(grid + 8);
+    for i in 0..=grid {
+        ts.push(<S::O>::q(i as i64, grid as i64));
+    }
+    let (da, db, dc) = dcoef(&c);
+    let mut crit_o: Vec<S::O> = Vec::new();
+    if let Some(k) = known {
+        assert!(S::EXACT, "harness: known roots only in the exact domain");
+        for (r, _) in k {
+            let r = r.up();
+            assert!(dbez1(&c, r).is_zero(), "harness: constructed root {:?} is not a zero of the derivative of {:?}", r, c);
+            if in01(r) {
+                ts.push(r);
+            }
+        }
+    } else {
+        for r in crit_f64(da.f(), db.f(), dc.f()) {
+            // S::O is f64 here
+            crit_o.push(<S::O as num_traits::NumCast>::from(r).unwrap());
+            let r = r.max(0.0).min(1.0);
+            ts.push(<S::O as num_traits::NumCast>::from(r).unwrap());
+        }
+    }
+    let mut vmin = c[0];
+    let mut vmax = c[0];
+    for &t in &ts {
+        let v = bez1(&c, t);
+        if v < vmin {
+            vmin = v;
+        }
+        if v > vmax {
+            vmax = v;
+        }
+    }
+    // the end control values are exact curve points
+    for v in [c[0], c[n - 1]] {
+        if v < vmin {
+            vmin = v;
+        }
+        if v > vmax {
+            vmax = v;
+        }
+    }
+    // ---- inflections: inside [0,1], zero of the derivative
+    let infl = cv.infl(ax);
+    let dscale = (da.f().abs() + db.f().abs() + dc.f().abs()).max(1.0);
+    for &r in &infl {
+        if !in01(r) {
+            if f6_signature(&cs, r) {
+                cx.label("F6-signature:inflection-outside");
+                if cx.known(F6) {
+                    continue;
+                }
+                fail!("{} {}_inflections reports {:?}, outside [0,1] (root -c/b of a linear derivative returned without interval test) controls {:?}", C::NAME, axn, r, cs);
+            }
+            fail!("{} {}_inflection(s) reports {:?}, outside [0,1]; controls {:?}", C::NAME, axn, r, cs);
+        }
+        let d = dbez1(&c, r.up());
+        // floats: a backward-stable root has residual ~ eps*(|A|+|B|+|C|); allow the conditioning of the
+        // textbook formula on well-scaled input
+        let dtol = 256.0 * S::eps() * dscale;
+        let mut ok = eqv(cx, d, <S::O>::zero(), dtol);
+        if !ok && !S::EXACT {
+            // (ii) flat-region criterion: a true critical parameter within 1e-2 where the coordinate differs
+            // from the one at the reported parameter by no more than the value tolerance
+            let v = bez1(&c, r.up());
+            for &ts_ in &crit_o {
+                if (ts_.f() - r.f()).abs() <= 1e-2 && eqv(cx, bez1(&c, ts_), v, tol) {
+                    ok = true;
+                    cx.label("inflection-accepted-by-flat-region-criterion");
+                }
+            }
+        }
+        if !ok {
+            axis_fail!(continue; "{} {}_inflection(s) reports {:?} where the derivative is {:?} (not a zero; tol {:.3e}); controls {:?}", C::NAME, axn, r, d, dtol, cs);
+        }
+    }
+    if infl.len() == 2 {
+        cx.label("two-inflections-reported");
+    }
+    // docs: "... an inflection point along the axis, if any": every simple root strictly inside (0,1)
+    // known by construction must be reported (exact domain only)
+    if let Some(k) = known {
+        for (r, simple) in k {
+            if *simple && S::zero() < *r && *r < S::one() {
+                check!(cx, infl.contains(r), "{} {}_inflection(s) = {:?} misses the interior simple root {:?} of the derivative; controls {:?}", C::NAME, axn, infl, r, cs);
+            }
+        }
+    }
+    // ---- min / max / bounds
+    let (bmin, bmax) = cv.bounds(ax);
+    let cands: [(&str, S, bool); 4] = [("min", cv.min_t(ax), true), ("max", cv.max_t(ax), false), ("bounds.0", bmin, true), ("bounds.1", bmax, false)];
+    for (what, t, is_min) in cands {
+        if !in01(t) {
+            if f6_signature(&cs, t) {
+                cx.label("F6-signature:min/max-outside");
+                if cx.known(F6) {
+                    continue;
+                }
+                fail!("{} {}_{} returns parameter {:?}, outside [0,1] (unclamped root of a linear derivative); controls {:?}", C::NAME, axn, what, t, cs);
+            }
+            fail!("{} {}_{} returns parameter {:?}, outside [0,1]; controls {:?}", C::NAME, axn, what, t, cs);
+        }
+        let v = bez1(&c, t.up());
+        if is_min {
+            if !le(cx, v, vmin, tol) {
+                axis_fail!(continue; "{} {}_{} returns t={:?} where the coordinate is {:?}, but the curve reaches {:?} on [0,1]; controls {:?}", C::NAME, axn, what, t, v, vmin, cs);
+            }
+        } else {
+            if !le(cx, vmax, v, tol) {
+                axis_fail!(continue; "{} {}_{} returns t={:?} where the coordinate is {:?}, but the curve reaches {:?} on [0,1]; controls {:?}", C::NAME, axn, what, t, v, vmax, cs);
+            }
+        }
+        if S::zero() < t && t < S::one() {
+            cx.label(if is_min { "min-interior" } else { "max-interior" });
+        }
+    }
+    Ok(AxisTruth { vmin, vmax, tol, cancel })
+}
+
+/// Judge a box (min, max) over the first `dims` coordinates against the true per-axis extremes.
+fn judge_box<S: Ora, C: Cv<S>>(cx: &mut Cx, cv: C, cp: &[P3<S>], what: &'static str, got: (P3<S>, P3<S>), dims: usize, truth: &[AxisTruth<S::O>]) -> CaseResult {
+    let mut all_ok = true;
+    for k in 0..dims {
+        let tr = &truth[k];
+        all_ok &= eqv(cx, got.0[k].up(), tr.vmin, tr.tol) && eqv(cx, got.1[k].up(), tr.vmax, tr.tol);
+    }
+    if all_ok {
+        cx.label("box-correct");
+        return Ok(());
+    }
+    // what the known-defective formula yields: the *parameters* returned by *_bounds()
+    let mut pmin = [S::zero(); 3];
+    let mut pmax = [S::zero(); 3];
+    for k in 0..dims {
+        let (a, b) = cv.bounds(k);
+        pmin[k] = a;
+        pmax[k] = b;
+    }
+    let is_param_box = (0..dims).all(|k| got.0[k] == pmin[k] && got.1[k] == pmax[k]);
+    if is_param_box {
+        cx.label("F5-signature:box-of-parameters");
+        if cx.known(F5) {
+            return Ok(());
+        }
+        fail!("{} {}() = {{min {:?}, max {:?}}} holds the parameters returned by *_bounds() instead of curve coordinates; want {{min {:?}, max {:?}}}; controls {:?}", C::NAME, what, &got.0[..dims], &got.1[..dims], truth[..dims].iter().map(|t| t.vmin).collect::<Vec<_>>(), truth[..dims].iter().map(|t| t.vmax).collect::<Vec<_>>(), cp);
+    }
+    // side by side; a side taken at an F6-tainted parameter is F6, anything else is new
+    for k in 0..dims {
+        let tr = &truth[k];
+        let cs: Vec<S> = cp.iter().map(|p| p[k]).collect();
+        let c: Vec<S::O> = cs.iter().map(|x| x.up()).collect();
+        for (side, g, want, tp) in [("min", got.0[k], tr.vmin, pmin[k]), ("max", got.1[k], tr.vmax, pmax[k])] {
+            if eqv(cx, g.up(), want, tr.tol) {
+                continue;
+            }
+            if f6_signature(&cs, tp) && eqv(cx, g.up(), bez1(&c, tp.up()), tr.tol * 64.0) {
+                cx.label("F6-signature:box-side-at-outside-parameter");
+                if cx.known(F6) {
+                    continue;
+                }
+                fail!("{} {}().{}.{} = {:?} is the coordinate at the out-of-range parameter {:?} (unclamped linear-derivative root); want {:?}; controls {:?}", C::NAME, what, side, AXN[k], g, tp, want, cs);
+            }
+            if tr.cancel && in01(tp) && eqv(cx, g.up(), bez1(&c, tp.up()), tr.tol) {
+                cx.label("F11-signature:box-side-at-wrong-parameter");
+                if cx.known(F_CANCEL) {
+                    continue;
+                }
+                fail!("{} {}().{}.{} = {:?} is the coordinate at parameter {:?}; want {:?} [coordinate has a negligible leading derivative coefficient: the quadratic formula cancels]; controls {:?}", C::NAME, what, side, AXN[k], g, tp, want, cs);
+            }
+            // containment or touch?
+            let inside_violation = if side == "min" { g.up() > want } else { g.up() < want };
+            fail!("{} {}().{}.{} = {:?}, want {:?} ({}); controls {:?}", C::NAME, what, side, AXN[k], g, want, if inside_violation { "box does not contain the curve" } else { "box does not touch the curve" }, cp);
+        }
+    }
+    Ok(())
+}
+
+fn judge_curve<S: Ora, C: Cv<S>>(cx: &mut Cx, cp: &[P3<S>], known: Option<&[Vec<(S, bool)>]>, grid: usize) -> CaseResult {
+    let cv = C::build(cp);
+    let mut truth = Vec::new();
+    for ax in 0..C::DIM {
+        truth.push(judge_axis::<S, C>(cx, cv, cp, ax, known.map(|k| &k[ax][..]), grid)?);
+    }
+    judge_box::<S, C>(cx, cv, cp, "aabr", cv.aabr(), 2, &truth)?;
+    if let Some(b) = cv.aabb() {
+        judge_box::<S, C>(cx, cv, cp, "aabb", b, 3, &truth)?;
+    }
+    Ok(())
+}
+
+/// Non-triviality from the derivative's real roots (f64): a simple root strictly inside (0,1), or a root
+/// within 1e-3 of 0 or 1.
+fn nontrivial_roots(roots: &[(f64, bool)]) -> (bool, bool) {
+    let mut interior = false;
+    let mut near = false;
+    for &(r, simple) in roots {
+        if simple && r > 0.0 && r < 1.0 {
+            interior = true;
+        }
+        if r.abs() <= 1e-3 || (r - 1.0).abs() <= 1e-3 {
+            near = true;
+        }
+    }
+    (interior, near)
+}
+
+/// Curves whose every coordinate comes from a branch family.
+fn families_case<S: Ora, C: Cv<S>>(t: &mut Tape, cx: &mut Cx) -> CaseResult {
+    let mut cp = vec![[S::zero(); 3]; C::DEG + 1];
+    let mut known: Vec<Vec<(S, bool)>> = Vec::new();
+    let mut fams = Vec::new();
+    let mut nt = false;
+    for ax in 0..C::DIM {
+        let a = if C::DEG == 3 {
+            let f = t.below(gen::CUBIC_FAMS.len());
+            gen::cubic_axis::<S>(t, f)
+        } else {
+            let f = t.below(gen::QUAD_FAMS.len());
+            gen::quad_axis::<S>(t, f)
+        };
+        for i in 0..=C::DEG {
+            cp[i][ax] = a.c[i];
+        }
+        cx.label(a.fam);
+        fams.push(a.fam);
+        let rf: Vec<(f64, bool)> = a.roots.iter().map(|(r, s)| (r.f(), *s)).collect();
+        let (interior, near) = nontrivial_roots(&rf);
+        if interior {
+            cx.label("interior-extremum");
+        }
+        if near {
+            cx.label("root-within-1e-3-of-an-end");
+        }
+        nt |= interior || near;
+        // monotone / interior extremum not beating the end points (exact domain: decided on the values)
+        let c: Vec<S::O> = a.c.iter().map(|x| x.up()).collect();
+        let (lo, hi) = if c[0] <= c[C::DEG] { (c[0], c[C::DEG]) } else { (c[C::DEG], c[0]) };
+        let mut any_interior_crit = false;
+        for (r, _) in &a.roots {
+            if S::zero() < *r && *r < S::one() {
+                any_interior_crit = true;
+                let v = bez1(&c, r.up());
+                if lo <= v && v <= hi {
+                    cx.label("interior-critical-point-not-beating-the-end-points");
+                }
+            }
+        }
+        if !any_interior_crit {
+            cx.label("monotone");
+        }
+        known.push(a.roots);
+    }
+    cx.set_nontrivial(nt);
+    sample!(cx, "{} {} families={:?} controls={:?}", S::NAME, C::NAME, fams, cp);
+    if S::EXACT {
+        judge_curve::<S, C>(cx, &cp, Some(&known), 32)
+    } else {
+        judge_curve::<S, C>(cx, &cp, None, 4096)
+    }
+}
+
+/// Random float curves (irrational roots) against the dense grid.
+fn random_case<S: Ora, C: Cv<S>>(t: &mut Tape, cx: &mut Cx) -> CaseResult {
+    let mut cp = vec![[S::zero(); 3]; C::DEG + 1];
+    let continuous = t.chance(192);
+    let mag = t.pick(&[1i64, 10, 10, 100]);
+    for p in cp.iter_mut() {
+        for k in 0..C::DIM {
+            p[k] = if continuous { S::q(0, 1) + <S as num_traits::NumCast>::from(t.range_f64(-(mag as f64), mag as f64)).unwrap() } else { S::any(t, 10) };
+        }
+    }
+    let mut nt = false;
+    for ax in 0..C::DIM {
+        let c: Vec<f64> = cp.iter().map(|p| p[ax].f()).collect();
+        let (a, b, cc) = dcoef(&c);
+        let mut roots = Vec::new();
+        if a != 0.0 {
+            let disc = b * b - 4.0 * a * cc;
+            if disc > 0.0 {
+                for r in crit_f64(a, b, cc).into_iter().skip(2) {
+                    roots.push((r, true));
+                }
+            }
+        } else if b != 0.0 {
+            roots.push((-cc / b, true));
+        }
+        let (interior, near) = nontrivial_roots(&roots);
+        if interior {
+            cx.label("interior-extremum");
+        }
+        if near {
+            cx.label("root-within-1e-3-of-an-end");
+        }
+        if roots.iter().filter(|(r, _)| *r > 0.0 && *r < 1.0).count() == 2 {
+            cx.label("two-roots-inside");
+        }
+        nt |= interior || near;
+    }
+    cx.set_nontrivial(nt);
+    sample!(cx, "{} {} controls={:?}", S::NAME, C::NAME, cp);
+    judge_curve::<S, C>(cx, &cp, None, 4096)
+}
+
+// -------------------------------------------------------------------------------------------------
+// closest-point search
+
+fn search_case<S: Ora, C: Cv<S>>(t: &mut Tape, cx: &mut Cx) -> CaseResult {
+    let mut cp = vec![[S::zero(); 3]; C::DEG + 1];
+    for p in cp.iter_mut() {
+        for k in 0..C::DIM {
+            p[k] = if S::EXACT { S::q(t.int(-12, 12), t.pick(&[1i64, 1, 2, 4])) } else { S::any(t, 10) };
+        }
+    }
+    let cpo: Vec<[S::O; 3]> = cp.iter().map(up3::<S>).collect();
+    let cv = C::build(&cp);
+    // query: anywhere, near the curve, or far away
+    let mut p = [S::zero(); 3];
+    let mode = t.below(4);
+    let base = if mode == 1 { cv.eval(S::q(t.below(9) as i64, 8)) } else { [S::zero(); 3] };
+    for k in 0..C::DIM {
+        p[k] = match mode {
+            0 | 2 => if S::EXACT { S::q(t.int(-16, 16), t.pick(&[1i64, 2])) } else { S::any(t, 12) },
+            1 => base[k] + S::q(t.int(-4, 4), 4),
+            _ => S::q(t.int(-40, 40), 1),
+        };
+    }
+    let po = up3::<S>(&p);
+    let direct = t.chance(64);
+    let eps: S = if S::EXACT {
+        S::q(1, t.pick(&[2i64, 4, 8, 16, 32]))
+    } else if t.chance(24) {
+        // just above the documented limit
+        S::epsilon() * S::i(2)
+    } else {
+        <S as num_traits::NumCast>::from(t.pick(&[0.3f64, 1e-2, 1e-3, 1e-4, 1e-6])).unwrap()
+    };
+    let sc = maxabs(&cp).max(maxabs(&[p])).max(1.0);
+    let dtol = 64.0 * S::eps() * sc * sc * 12.0;
+    // coarse samples (parameter computed in S as the docs describe: i/steps), judged in the oracle type
+    let (tt, pt, coarse_t, label): (S, P3<S>, Vec<S>, &'static str) = if !direct {
+        let steps: u16 = if S::EXACT { t.pick(&[1u16, 2, 3, 4, 5, 6, 8]) } else { 1 + t.below(32) as u16 };
+        let coarse_t: Vec<S> = (0..steps).map(|i| <S as From<u16>>::from(i) / <S as From<u16>>::from(steps)).collect();
+        sample!(cx, "{} {} controls={:?} p={:?} steps={} eps={:?}", S::NAME, C::NAME, cp, p, steps, eps);
+        let (tt, pt) = cv.search_steps(p, steps, eps);
+        (tt, pt, coarse_t, "by_steps")
+    } else {
+        let m = t.below(5);
+        let coarse_t: Vec<S> = (0..m).map(|_| S::q(t.below(17) as i64, 16)).collect();
+        let h: S = S::q(1, t.pick(&[2i64, 4, 8, 16]));
+        let coarse: Vec<(S, P3<S>)> = coarse_t.iter().map(|&u| (u, cv.eval(u))).collect();
+        sample!(cx, "{} {} controls={:?} p={:?} coarse={:?} h={:?} eps={:?}", S::NAME, C::NAME, cp, p, coarse_t, h, eps);
+        let (tt, pt) = cv.search(p, coarse, h, eps);
+        (tt, pt, coarse_t, if m == 0 { "direct,empty-coarse" } else { "direct" })
+    };
+    cx.label(label);
+    // returned point is the curve point at the returned parameter
+    let ev = cv.eval(tt);
+    check_eq!(cx, pt, ev, "{} search: returned point is not evaluate(returned t={:?})", C::NAME, tt);
+    let want_pt = bezn(&cpo, tt.up());
+    let amp = (1.0 + tt.f().abs()).powi(3);
+    for k in 0..C::DIM {
+        check!(cx, eqv(cx, pt[k].up(), want_pt[k], 64.0 * S::eps() * sc * amp), "{} search: returned point {:?} is not the curve point {:?} at the returned t={:?}; controls {:?} p={:?}", C::NAME, pt, want_pt, tt, cp, p);
+    }
+    // no farther than any coarse sample and the end point
+    let dret = dist2(&up3::<S>(&pt), &po);
+    let mut best = dist2(&cpo[C::DEG], &po);
+    check!(cx, le(cx, dret, best, dtol), "{} search returns t={:?} at squared distance {:?}, farther than the end point ({:?}); controls {:?} p={:?}", C::NAME, tt, dret, best, cp, p);
+    for &u in &coarse_t {
+        let d = dist2(&bezn(&cpo, u.up()), &po);
+        check!(cx, le(cx, dret, d, dtol), "{} search returns t={:?} at squared distance {:?}, farther than the coarse sample t={:?} ({:?}); controls {:?} p={:?}", C::NAME, tt, dret, u, d, cp, p);
+        if d < best {
+            best = d;
+        }
+    }
+    let improved = dret < best;
+    if improved {
+        cx.label("binary-phase-improved");
+    }
+    if !in01(tt) {
+        cx.label("observation:returned-t-outside-[0,1]");
+    }
+    cx.set_nontrivial(improved || coarse_t.len() >= 2);
+    Ok(())
+}
+
+// -------------------------------------------------------------------------------------------------
+// length
+
+fn mag<O: Dom>(a: &[O; 3], b: &[O; 3]) -> O {
+    dist2(a, b).sqrt()
+}
+
+/// polyline through C(i/(s+1)), i = 0..=s+1 — the documented meaning of `step_count`
+fn polyline<O: Dom>(cpo: &[[O; 3]], s: u32) -> O {
+    let mut l = O::zero();
+    let mut prev = cpo[0];
+    for i in 1..=(s + 1) {
+        let u = O::q(i as i64, 1) / O::q((s + 1) as i64, 1);
+        let q = bezn(cpo, u);
+        l = l + mag(&q, &prev);
+        prev = q;
+    }
+    l
+}
+
+fn length_case<S: Ora, C: Cv<S>>(t: &mut Tape, cx: &mut Cx) -> CaseResult {
+    let mut cp = vec![[S::zero(); 3]; C::DEG + 1];
+    let shape = t.below(4);
+    if S::EXACT {
+        // axis-aligned: the curve lives on one coordinate line, so every segment length is rational
+        let ax = t.below(C::DIM);
+        let f = t.below(if C::DEG == 3 { gen::CUBIC_FAMS.len() } else { gen::QUAD_FAMS.len() });
+        let a = if C::DEG == 3 { gen::cubic_axis::<S>(t, f) } else { gen::quad_axis::<S>(t, f) };
+        let others = [S::small(t, 9), S::small(t, 9), S::small(t, 9)];
+        for i in 0..=C::DEG {
+            for k in 0..C::DIM {
+                cp[i][k] = if k == ax { a.c[i] } else { others[k] };
+            }
+        }
+        cx.label("axis-aligned");
+    } else if shape == 0 {
+        // straight: control points on a line, monotone parameter => chord == polygon
+        let mut o = [S::zero(); 3];
+        let mut d = [S::zero(); 3];
+        for k in 0..C::DIM {
+            o[k] = S::any(t, 10);
+            d[k] = S::any(t, 4);
+        }
+        let mut lam = S::zero();
+        for i in 0..=C::DEG {
+            for k in 0..C::DIM {
+                cp[i][k] = o[k] + d[k] * lam;
+            }
+            lam = lam + S::q(1 + t.below(4) as i64, 2);
+        }
+        cx.label("straight");
+    } else {
+        for p in cp.iter_mut() {
+            for k in 0..C::DIM {
+                p[k] = S::any(t, 10);
+            }
+        }
+        cx.label("general");
+    }
+    let s: u16 = match t.below(4) {
+        0 => t.below(3) as u16,
+        1 => t.below(16) as u16,
+        2 => t.below(64) as u16,
+        _ => t.below16(if S::EXACT { 24 } else { 400 }) as u16,
+    };
+    if s == 0 {
+        cx.label("step_count=0");
+    }
+    let cv = C::build(&cp);
+    let cpo: Vec<[S::O; 3]> = cp.iter().map(up3::<S>).collect();
+    sample!(cx, "{} {} controls={:?} step_count={}", S::NAME, C::NAME, cp, s);
+    let l1 = cv.length(s).up();
+    let l2 = cv.length(2 * s + 1).up();
+    let chord = mag(&cpo[0], &cpo[C::DEG]);
+    let mut poly = <S::O>::zero();
+    for i in 0..C::DEG {
+        poly = poly + mag(&cpo[i], &cpo[i + 1]);
+    }
+    let sc = maxabs(&cp).max(1.0);
+    let tol = |segs: u32| 16.0 * S::eps() * sc * (segs as f64 + 2.0);
+    let n1 = s as u32 + 1;
+    let n2 = 2 * s as u32 + 2;
+    check!(cx, le(cx, chord, l1, tol(n1)), "{} length_by_discretization({}) = {:?} is shorter than the chord {:?}; controls {:?}", C::NAME, s, l1, chord, cp);
+    check!(cx, le(cx, l1, poly, tol(n1)), "{} length_by_discretization({}) = {:?} exceeds the control polygon {:?}; controls {:?}", C::NAME, s, l1, poly, cp);
+    check!(cx, le(cx, chord, l2, tol(n2)), "{} length_by_discretization({}) = {:?} is shorter than the chord {:?}; controls {:?}", C::NAME, 2 * s + 1, l2, chord, cp);
+    check!(cx, le(cx, l2, poly, tol(n2)), "{} length_by_discretization({}) = {:?} exceeds the control polygon {:?}; controls {:?}", C::NAME, 2 * s + 1, l2, poly, cp);
+    check!(cx, le(cx, l1, l2, tol(n2)), "{} length decreases under refinement by doubling: L({})={:?} ({} segments) > L({})={:?} ({} segments); controls {:?}", C::NAME, s, l1, n1, 2 * s + 1, l2, n2, cp);
+    // docs: "subdividing it into step_count+1 segments"
+    let w1 = polyline(&cpo, s as u32);
+    check!(cx, eqv(cx, l1, w1, tol(n1)), "{} length_by_discretization({}) = {:?}, the polyline with {} segments has length {:?}; controls {:?}", C::NAME, s, l1, n1, w1, cp);
+    let w2 = polyline(&cpo, 2 * s as u32 + 1);
+    check!(cx, eqv(cx, l2, w2, tol(n2)), "{} length_by_discretization({}) = {:?}, the polyline with {} segments has length {:?}; controls {:?}", C::NAME, 2 * s + 1, l2, n2, w2, cp);
+    let curved = if S::EXACT { chord < poly } else { poly.f() - chord.f() > 1e-3 * sc };
+    if curved {
+        cx.label("curved(polygon>chord)");
+    }
+    cx.set_nontrivial(curved);
+    Ok(())
+}
+
+/// The whole `u16` range of `step_count` is admissible (no documented precondition): largest values.
+fn length_limit_case(i: u64, cx: &mut Cx) -> CaseResult {
+    let s: u16 = [65535u16, 65534, 65533, 32767, 32768][(i % 5) as usize];
+    let ty = i / 5;
+    cx.nontrivial();
+    sample!(cx, "f64 type#{} step_count={}", ty, s);
+    fn run<C: Cv<f64>>(cx: &mut Cx, s: u16) -> CaseResult {
+        let cp: Vec<P3<f64>> = (0..=C::DEG).map(|i| [i as f64, (i * i) as f64 * 0.5, if C::DIM == 3 { 1.0 - i as f64 } else { 0.0 }]).collect();
+        let cv = C::build(&cp);
+        let chord = mag(&cp[0], &cp[C::DEG]);
+        let mut poly = 0.0;
+        for i in 0..C::DEG {
+            poly += mag(&cp[i], &cp[i + 1]);
+        }
+        let r = vkit::catch(|| cv.length(s));
+        let overflow_sig = s >= 65534
+            && match &r {
+                Err(m) => m.contains("overflow"),
+                Ok(l) => *l == 0.0,
+            };
+        if overflow_sig {
+            cx.label("F10-signature:step_count+2-overflows-u16");
+            if cx.known(F_LEN) {
+                return Ok(());
+            }
+            fail!("{} length_by_discretization({}) {} (the loop bound step_count+2 overflows u16); chord {:?}", C::NAME, s, match &r { Err(m) => format!("panics: {}", m), Ok(l) => format!("= {:?}", l) }, chord);
+        }
+        let l = match r {
+            Ok(l) => l,
+            Err(m) => fail!("{} length_by_discretization({}) panics: {}", C::NAME, s, m),
+        };
+        let tol = 16.0 * f64::EPSILON * 8.0 * (s as f64 + 3.0);
+        check!(cx, le(cx, chord, l, tol), "{} length_by_discretization({}) = {:?} is shorter than the chord {:?}", C::NAME, s, l, chord);
+        check!(cx, le(cx, l, poly, tol), "{} length_by_discretization({}) = {:?} exceeds the control polygon {:?}", C::NAME, s, l, poly);
+        Ok(())
+    }
+    match ty {
+        0 => run::<QuadraticBezier2<f64>>(cx, s),
+        1 => run::<QuadraticBezier3<f64>>(cx, s),
+        2 => run::<CubicBezier2<f64>>(cx, s),
+        _ => run::<CubicBezier3<f64>>(cx, s),
+    }
+}
+
 pub fn property() -> Property {
-    Property { id: "C15", rule: "", assumptions: &[], checks: Vec::new(), max_discard_frac: 0.2 }
+    let mut checks = Vec::new();
+    macro_rules! tape {
+        ($name:expr, $about:expr, $len:expr, $q:expr, $f:expr) => {
+            checks.push(Check { name: $name, about: $about, kind: Kind::Tape { len: $len, quick: $q, thorough: $q * 50, f: $f } });
+        };
+    }
+    macro_rules! per_type {
+        ($prefix:literal, $suffix:literal, $about:expr, $len:expr, $q:expr, $case:ident, $S:ty) => {
+            tape!(concat!($prefix, "-quad2-", $suffix), $about, $len, $q, $case::<$S, QuadraticBezier2<$S>>);
+            tape!(concat!($prefix, "-quad3-", $suffix), $about, $len, $q, $case::<$S, QuadraticBezier3<$S>>);
+            tape!(concat!($prefix, "-cubic2-", $suffix), $about, $len, $q, $case::<$S, CubicBezier2<$S>>);
+            tape!(concat!($prefix, "-cubic3-", $suffix), $about, $len, $q, $case::<$S, CubicBezier3<$S>>);
+        };
+    }
+    let fam = "every coordinate built from a branch family of the per-axis root finding (prescribed derivative with rational roots); *_inflection(s) in [0,1] and zeros of the derivative (+ interior simple roots reported), min_*/max_*/*_bounds in [0,1] and extreme over end points, all true critical points and a grid; aabr/aabb sides equal the true per-axis extremes";
+    per_type!("extrema", "rat", fam, 96, 4_000, families_case, Rat);
+    per_type!("extrema-families", "f64", fam, 96, 1_000, families_case, f64);
+    per_type!("extrema-families", "f32", fam, 96, 1_000, families_case, f32);
+    let rnd = "random float control points (irrational roots): same predicates against a 4097-point parameter grid plus f64 critical points, rounding-level slack";
+    per_type!("extrema-random", "f64", rnd, 160, 2_500, random_case, f64);
+    per_type!("extrema-random", "f32", rnd, 160, 2_500, random_case, f32);
+    let se = "binary_search_point_by_steps / binary_search_point: returned point == curve point at the returned parameter; not farther from the query than every coarse sample (i/steps, i<steps, resp. the supplied ones) and the end point";
+    per_type!("search", "rat", se, 64, 1_500, search_case, Rat);
+    per_type!("search", "f64", se, 128, 1_500, search_case, f64);
+    per_type!("search", "f32", se, 128, 1_500, search_case, f32);
+    let le = "length_by_discretization(s): >= chord, <= control polygon, L(2s+1) >= L(s) (2s+2 segments refine s+1), == polyline with s+1 segments (docs)";
+    per_type!("length", "rat", le, 48, 1_000, length_case, Rat);
+    per_type!("length", "f64", le, 128, 1_000, length_case, f64);
+    per_type!("length", "f32", le, 128, 1_000, length_case, f32);
+    checks.push(Check {
+        name: "length-step-count-limits",
+        about: "length_by_discretization at step_count = 65535, 65534, 65533, 32767, 32768 on the four types: no documented precondition on step_count, the length bounds must hold",
+        kind: Kind::Index { total: 20, quick: 20, thorough: 20, f: length_limit_case },
+    });
+    Property {
+        id: "C15",
+        rule: "extrema checks: a case is non-trivial when some coordinate has an interior extremum (simple root of its derivative strictly inside (0,1)) or a root of its derivative within 1e-3 of 0 or 1; search checks: the binary phase improved on the best coarse sample or there are >= 2 coarse samples; length checks: control polygon longer than the chord. Cases are proptest byte tapes (fixed seed); distinct = distinct consumed tape prefix per check",
+        assumptions: &[
+            "rustc and the proptest runner/shrinker are trusted",
+            "oracle = de Casteljau / Bernstein derivative on plain arrays (c15::ora), exact in Rat, f64 for f64 and f32 curves; it never calls vek's Bezier code (vek's evaluate is only used to state 'returned point == evaluate(returned t)')",
+            "Rat curves are integrated from prescribed derivatives so all critical points are known exactly; Rat::epsilon() = 2^-52 and generated coefficients are either exactly 0 or far above it, so the code's epsilon tests coincide with exact zero tests",
+            "float curves: the extreme of a coordinate is taken over a 4097-point grid, the end points and critical parameters from a stable f64 quadratic formula; tolerance 32 eps max|control| on values, 256 eps (|A|+|B|+|C|) on derivative residuals",
+            "closed interval [0,1] accepted for reported inflection parameters; the search is not required to return a parameter in [0,1] (the statement is silent) — such returns are only counted (label)",
+        ],
+        checks,
+        max_discard_frac: 0.2,
+    }
 }
